@@ -30,6 +30,8 @@ pub struct ExecRec {
     pub fn_id: u16,
     pub k: Key,
     pub finished: bool,
+    /// simulated thread that ran the body (0 unless a task-id hook is installed)
+    pub task: u64,
 }
 
 #[derive(Default)]
@@ -50,6 +52,23 @@ pub struct World {
 }
 
 pub static WORLD: Mutex<Option<World>> = Mutex::new(None);
+
+static TASK_HOOK: ::std::sync::atomic::AtomicUsize = ::std::sync::atomic::AtomicUsize::new(0);
+
+/// Installs the function that names the current (simulated) thread.
+pub fn set_task_hook(f: fn() -> u64) {
+    TASK_HOOK.store(f as usize, ::std::sync::atomic::Ordering::SeqCst);
+}
+
+pub fn current_task() -> u64 {
+    let p = TASK_HOOK.load(::std::sync::atomic::Ordering::Relaxed);
+    if p == 0 {
+        0
+    } else {
+        let f: fn() -> u64 = unsafe { ::std::mem::transmute::<usize, fn() -> u64>(p) };
+        f()
+    }
+}
 
 pub fn with<T>(f: impl FnOnce(&mut World) -> T) -> T {
     let mut g = WORLD.lock().unwrap_or_else(|e| e.into_inner());
@@ -79,6 +98,7 @@ pub fn set_plan(fn_id: u16, k: Key, s: Script) {
 }
 
 fn start_exec(fn_id: u16, repr: &str) -> (u64, Key, Script) {
+    let task = current_task();
     with(|w| {
         let k = match w.reprs.get(&(fn_id, repr.to_string())) {
             Some(k) => *k,
@@ -89,7 +109,7 @@ fn start_exec(fn_id: u16, repr: &str) -> (u64, Key, Script) {
         };
         w.seq += 1;
         let stamp = w.seq;
-        w.execs.push(ExecRec { stamp, fn_id, k, finished: false });
+        w.execs.push(ExecRec { stamp, fn_id, k, finished: false, task });
         let s = w.cur.get(&(fn_id, k)).cloned().unwrap_or_default();
         (stamp, k, s)
     })
